@@ -15,6 +15,7 @@ import (
 	"github.com/gookit/rux"
 	"pgregory.net/rapid"
 
+	"verifharness/chain"
 	"verifharness/ev"
 	"verifharness/model"
 )
@@ -213,3 +214,93 @@ func prop(t *rapid.T) {
 }
 
 func TestProp(t *testing.T) { rapid.Check(t, prop) }
+
+// propProgram: the same differential twin, but the router is built from a full registration program (nested groups,
+// Use inside groups, several Route.Use calls, handler slices with spare capacity), so the cached route copies carry
+// real middleware chains; the comparison is on the complete handler trace and the calls received by the writer.
+func propProgram(t *rapid.T) {
+	ev.Case()
+	opts := model.Options{Strict: rapid.Bool().Draw(t, "strict"), NotAllowed: rapid.Bool().Draw(t, "handle405"), Caching: true,
+		CacheCap: rapid.IntRange(0, ev.Pick(4, 8)).Draw(t, "cap")}
+	cfg := chain.ProgCfg{MaxDepth: rapid.IntRange(0, 3).Draw(t, "maxDepth"), MaxMw: 3, MaxStmts: 4, Fallbacks: true, Dynamic: true, AnyRoutes: true,
+		Script: chain.ScriptCfg{Writes: true, Data: true, Nexts: []int{0, 1, 1, 1, 2}}}
+	wa, wb := chain.NewWorld(), chain.NewWorld()
+	prog := chain.GenProgram(t, wa, opts, cfg)
+	// more dynamic routes: that is what the cache is about
+	pm := prog.Model()
+	if len(pm.Routes) == 0 {
+		t.Skip("no routes")
+	}
+	a := prog.Apply(wa)
+	plain := *prog
+	plain.Body = chain.Clone(prog.Body)
+	plain.Opts.Caching = false
+	b := plain.Apply(wb)
+	pool := chain.Requests(t, pm, 3)
+	for _, q := range pool {
+		if q[0] == "GET" {
+			pool = append(pool, [2]string{"HEAD", q[1]})
+			break
+		}
+	}
+	if len(pool) == 0 {
+		t.Skip("no requests")
+	}
+	n := rapid.IntRange(4, ev.Pick(30, 120)).Draw(t, "nsteps")
+	var hist [][2]string
+	hits, evictions := 0, 0
+	for i := 0; i < n; i++ {
+		q := pool[rapid.IntRange(0, len(pool)-1).Draw(t, "pick")]
+		hist = append(hist, q)
+		if c, _, _ := pm.Expect(q[0], q[1]); len(c) > 62 {
+			continue
+		}
+		ev.Eval()
+		var before []string
+		cache := a.VerifCache()
+		if cache != nil {
+			before = cache.VerifKeys()
+			for _, k := range before {
+				if k == q[0]+model.Normalize(q[1], opts.Strict) {
+					hits++
+				}
+			}
+		}
+		ra, _, alA := a.Match(q[0], q[1])
+		rb, _, alB := b.Match(q[0], q[1])
+		ctx := func() string {
+			return fmt.Sprintf("step %d %s %q\nhistory %v\nprogram:\n%sscripts:\n%s", i, q[0], q[1], hist, prog, prog.Scripts())
+		}
+		if (ra == nil) != (rb == nil) || (ra != nil && (ra.Path() != rb.Path() || len(ra.Handlers()) != len(rb.Handlers()) || strings.Join(ra.Methods(), ",") != strings.Join(rb.Methods(), ","))) {
+			t.Fatalf("Match: caching router selects %v, non-caching twin %v\n%s", ra, rb, ctx())
+		}
+		sort.Strings(alA)
+		sort.Strings(alB)
+		if strings.Join(alA, ",") != strings.Join(alB, ",") {
+			t.Fatalf("Match: allowed methods %v on the caching router, %v on the twin\n%s", alA, alB, ctx())
+		}
+		sa, sb := wa.NewRequest(q[0], q[1]), wb.NewRequest(q[0], q[1])
+		if d := chain.Diff(sa.Serve(a), sb.Serve(b)); d != "" {
+			t.Fatalf("caching router (first) and non-caching twin (second, called model below) differ:\n%s\n%s", d, ctx())
+		}
+		if cache != nil {
+			after := map[string]bool{}
+			for _, k := range cache.VerifKeys() {
+				after[k] = true
+			}
+			for _, k := range before {
+				if !after[k] {
+					evictions++
+				}
+			}
+		}
+	}
+	ev.ClassN("program:steps:cache-hit", hits)
+	ev.ClassN("program:steps:eviction", evictions)
+	if hits > 0 {
+		ev.Class("program:history-with-hit")
+		ev.NonTrivial(prog.String()+prog.Scripts()+fmt.Sprint(hist), func() string { return fmt.Sprintf("%v\n%s", hist, prog) })
+	}
+}
+
+func TestPropProgram(t *testing.T) { rapid.Check(t, propProgram) }
